@@ -151,10 +151,10 @@ def _stored_names(fn, comps=True):
     return out - glob
 
 
-def _generator_shape(fn):
+def _generator_shape(fn, allow_yield_from=False):
     """None when the generator can be inlined into a consuming for loop, else the reason"""
     for n in _stmts_walk(fn.body):
-        if isinstance(n, ast.YieldFrom):
+        if isinstance(n, ast.YieldFrom) and not allow_yield_from:
             return 'yield from'
         if isinstance(n, ast.Return) and n.value is not None:
             return 'return with a value'
@@ -351,6 +351,7 @@ class Inliner:
         self.class_bases = {}
         self.static = set()
         self.generators = set()
+        self.splice_only = set()
         self.objclasses = {}       # unknown plain classes: name -> ClassDef
         self.dissolved = set()
         self.objs = {}             # object locals of the host being processed: var -> class
@@ -442,7 +443,11 @@ class Inliner:
                 return False
         if any(isinstance(n, (ast.Yield, ast.YieldFrom)) for n in _stmts_walk(fn.body)):
             why = _generator_shape(fn)
-            if why:
+            if why == 'yield from' and _generator_shape(fn, allow_yield_from=True) is None:
+                # can still be spliced where the host says ``yield from helper(...)`` as a statement
+                # (its yields stay yields); not where a for loop consumes it
+                self.splice_only.add(id(fn))
+            elif why:
                 self.left.append((qn, 'generator: ' + why))
                 return False
             self.generators.add(id(fn))
@@ -901,7 +906,7 @@ class Inliner:
                     return pre + gbody
         if isinstance(st, ast.For) and isinstance(st.iter, ast.Call) and not st.orelse:
             h, recv = self._resolve(st.iter, host, gen=True)
-            if h is not None and not any(h is s_ for s_ in stack):
+            if h is not None and id(h) not in self.splice_only and not any(h is s_ for s_ in stack):
                 got = self._expand_generator(st, h, recv, host, names, stack, hostname)
                 if got is not None:
                     return got
